@@ -13,8 +13,10 @@ Theorem C07_select_iff : forall p n,
 Proof. exact select_iff. Qed.
 Print Assumptions C07_select_iff.
 
-(* a run fails on this interface exactly when a regular expression that is actually
-   evaluated does not compile; selection never dereferences nil *)
+(* the predicate's own error path: it reports an error exactly when a regular expression that it
+   actually evaluates does not compile (unreachable in a run since fix c09-validate-regexes, which
+   rejects such configurations at initialisation: C07_valid_config_no_regex_error); selection never
+   dereferences nil *)
 Theorem C07_select_error : forall p n e,
   full (p_cfg p) -> (should_generate p n = Err e <-> bad_regex_reached p n).
 Proof. exact select_err. Qed.
@@ -24,7 +26,11 @@ Theorem C07_select_no_panic : forall p n, full (p_cfg p) -> should_generate p n 
 Proof. exact select_no_panic. Qed.
 Print Assumptions C07_select_no_panic.
 
-(* regexes ignored under all (whatever they are, even ones that do not compile) *)
+(* regexes ignored under all: the predicate does not look at them.  (Since fix c09-validate-regexes a
+   configuration with an expression that does not compile never gets this far: see
+   C07_invalid_regex_rejected and C07_valid_config_no_regex_error below.  Before that fix an invalid
+   expression was an error only where the predicate consulted it - C07_select_error describes exactly
+   where - and was silently accepted under all: true.) *)
 Theorem C07_all_ignores_regexes : forall p n,
   c_all (p_cfg p) = Some true -> should_generate p n = Ok true.
 Proof. exact all_ignores_regexes. Qed.
@@ -42,6 +48,25 @@ Print Assumptions C07_exclude_ignored_without_include.
 Theorem C07_regex_match_spec : forall p s, pat_match p s = true <-> pat_matches p s.
 Proof. exact pat_match_spec. Qed.
 Print Assumptions C07_regex_match_spec.
+
+(* an include / exclude expression that does not compile, in the top-level settings or in any package
+   config, makes the run fail at initialisation: error exit, nothing generated - consulted or not *)
+Theorem C07_invalid_regex_rejected : forall t ss root o1 o2 m,
+  config_valid root m = false -> run t ss root o1 o2 m = {| o_exit := ExErr; o_mocks := [] |}.
+Proof. exact run_invalid. Qed.
+Print Assumptions C07_invalid_regex_rejected.
+
+(* and in a configuration that passed validation the selection predicate never reports a regular
+   expression error, for any package of the initialised map (configured or injected) and any name *)
+Theorem C07_valid_config_no_regex_error : forall t root o m0 k p n e,
+  full root -> NoDup (map fst m0) -> NoDup (map fst t) -> Permutation o (map fst m0) ->
+  config_valid root m0 = true ->
+  lookup k (expand_recursive t root o m0) = Some p -> should_generate p n <> Err e.
+Proof.
+  intros t root o m0 k p n e F NDm NDt P V H. apply regexes_ok_no_error.
+  now apply (config_valid_final t root o m0 k p).
+Qed.
+Print Assumptions C07_valid_config_no_regex_error.
 
 (* ---- candidate discovery ----------------------------------------------------------- *)
 
